@@ -40,6 +40,8 @@ static void sink_cb(void *d, int c)
     if (s->n < sizeof s->buf)
         s->buf[s->n] = (char)c;
     s->n++;
+    if (s->n > (1u << 16))
+        _exit(64 + 32); // unbounded output: end the child at once, the parent reports it (BAD_RUNAWAY)
 }
 static int ig_sink_v(Sink *s, const char *fmt, ...)
 {
@@ -57,7 +59,8 @@ enum
     BAD_STR = 2,
     BAD_FLT = 4,
     BAD_MIX = 8,
-    BAD_RET = 16
+    BAD_RET = 16,
+    BAD_RUNAWAY = 32
 };
 struct Job
 {
@@ -100,6 +103,11 @@ static void *worker(void *p)
 static uint64_t mt_count() { return vf::thorough() ? 3000 : 200; }
 static void mt_run(uint64_t idx)
 {
+    if (pf::skip_after_hangs())
+    {
+        VF_OK("skipped: the run already recorded repeated hangs");
+        return;
+    }
     vf::Rng r(vf::seed(), MT_SALT, idx);
     int nthreads = r.range(2, 4);
     const std::vector<pf::Call> &T = pf::call_table();
@@ -151,7 +159,7 @@ static void mt_run(uint64_t idx)
         // the threads run without the per-call guard of igpf.h: bound the whole child by CPU time (a formatting call
         // that does not terminate is a violation, reported by the parent) and never let it outlive the worker
         prctl(PR_SET_PDEATHSIG, SIGKILL);
-        struct rlimit rl = {20, 25};
+        struct rlimit rl = {10, 12};
         setrlimit(RLIMIT_CPU, &rl);
         // references, single-threaded
         for (int t = 0; t < nthreads; t++)
@@ -189,7 +197,7 @@ static void mt_run(uint64_t idx)
             bad |= jobs[t].bad;
         }
         fflush(nullptr);
-        _exit(bad ? 64 + (bad & 31) : 0);
+        _exit(bad ? 64 + (bad & 63) : 0);
     }
     close(pfd[1]);
     char msg[1000];
@@ -201,8 +209,8 @@ static void mt_run(uint64_t idx)
     if (WIFEXITED(st) && WEXITSTATUS(st) >= 64)
     {
         int bad = WEXITSTATUS(st) - 64;
-        static const char *names[5] = {"integer-text", "string-text", "float-text", "multi-directive-text", "return-value"};
-        for (int b = 0; b < 5; b++)
+        static const char *names[6] = {"integer-text", "string-text", "float-text", "multi-directive-text", "return-value", "runaway-output"};
+        for (int b = 0; b < 6; b++)
             if (bad & (1 << b))
             {
                 char key[100];
@@ -211,7 +219,12 @@ static void mt_run(uint64_t idx)
             }
     }
     if (WIFSIGNALED(st) && (WTERMSIG(st) == SIGXCPU || WTERMSIG(st) == SIGKILL))
-        vf::fail("concurrent:hang", "%d threads formatting concurrently did not finish within 20 s of CPU time (a call normally takes microseconds); first threads format: %s",
+    {
+        if (pf::hang_shared())
+            pf::hang_shared()->hangs.fetch_add(3); // a few of these are enough; the rest of the run is skipped
+    }
+    if (WIFSIGNALED(st) && (WTERMSIG(st) == SIGXCPU || WTERMSIG(st) == SIGKILL))
+        vf::fail("concurrent:hang", "%d threads formatting concurrently did not finish within 10 s of CPU time (a call normally takes microseconds); first threads format: %s",
                  nthreads, descr.c_str());
     if (!(WIFEXITED(st) && WEXITSTATUS(st) == 0))
         vf::fail("concurrent:child-died", "child status %#x; first threads format: %s", st, descr.c_str());
